@@ -148,7 +148,7 @@ def worker(job):
             graph = "factor_graph" if method in ("ilp_fgdp", "ilp_compref_fg") else None
             if method == "adhoc" and rng.random() < 0.5:
                 # adhoc has a dedicated placement for SECP-like models (a factor hosted with one of its variables)
-                inst = distgen.gen_instance(rng, graph="factor_graph", secp_hint_p=0.8, hint_bias=rng.random() < 0.6)
+                inst = distgen.gen_instance(rng, graph="factor_graph", secp_hint_p=0.9, hint_bias=rng.random() < 0.8)
             else:
                 # the pinning methods get more instances with computations pinned by a cost of 0 and tight capacities
                 inst = distgen.gen_instance(rng, graph=graph, pin_bias=method in distgen.PINNING and rng.random() < 0.6,
